@@ -410,3 +410,15 @@ M("C20", "norms stored without copy", BT, 'self.data.add(name="norms", data=mode
 M("C20", "global numpy draw", BT, "idx_rnd = rng.choice(n_samples, n_samples, replace=True)", "idx_rnd = np.random.choice(n_samples, n_samples, replace=True)", "RNG.draw.generator")
 B("C20", "rename rng", BT, "", "", edits=[("        rng = np.random.default_rng(", "        generator = np.random.default_rng("), ("idx_rnd = rng.choice(", "idx_rnd = generator.choice(")])
 B("C20", "n_samples via sizes", BT, "n_samples = input_data.coords[sample_name].size", "n_samples = input_data[sample_name].size")
+
+# ---------------------------------------------------------------- learned from seeded defects (round 2)
+M("C02", "concat overrides the sample index", CO, "X_concat: DataArray = xr.concat(reindexed_data_list, dim=self.feature_name)", 'X_concat: DataArray = xr.concat(reindexed_data_list, dim=self.feature_name, join="override")', "MIRROR.state.concat.align")
+M("C02", "unstack relabels by position", ST, "                X = X.unstack(feature_name)\n\n        else:\n            pass", "                X = X.unstack(feature_name)\n                X = X.assign_coords({dim: self.coords_in[dim] for dim in self.dims_mapping[feature_name]})\n\n        else:\n            pass", "MIRROR.state.stack.labels")
+M("C07", "unstack relabels by position", ST, "                X = X.unstack(feature_name)\n\n        else:\n            pass", "                X = X.unstack(feature_name)\n                X = X.assign_coords({dim: self.coords_in[dim] for dim in self.dims_mapping[feature_name]})\n\n        else:\n            pass", "LAYOUT.positional")
+M("C10", "RDA drops standardize", "xeofs/cross/rda.py", "", "", "SPECIAL.forward", edits=[("        CPCCA.__init__(\n            self,\n            n_modes=n_modes,\n            alpha=[0.0, 1.0],\n            standardize=standardize,\n", "        CPCCA.__init__(\n            self,\n            n_modes=n_modes,\n            alpha=[0.0, 1.0],\n")])
+M("C10", "ComplexMCA passes use_coslat as check_nans", "xeofs/cross/mca.py", "", "", "SPECIAL.forward", edits=[("        ComplexCPCCA.__init__(\n            self,\n            n_modes=n_modes,\n            alpha=[1.0, 1.0],\n            standardize=standardize,\n            use_coslat=use_coslat,\n            check_nans=check_nans,", "        ComplexCPCCA.__init__(\n            self,\n            n_modes=n_modes,\n            alpha=[1.0, 1.0],\n            standardize=standardize,\n            use_coslat=use_coslat,\n            check_nans=use_coslat,")])
+M("C12", "inner EOF with default check_nans", "xeofs/single/eeof.py", "", "", "LAZY.inner", edits=[("                compute=self._params[\"compute\"],\n                check_nans=False,\n                sample_name=self.sample_name,", "                compute=self._params[\"compute\"],\n                sample_name=self.sample_name,")])
+M("C12", "OPA inner EOF always computes", "xeofs/single/opa.py", '            compute=self._params["compute"],\n            random_state=self._params["random_state"],', '            compute=True,\n            random_state=self._params["random_state"],', "LAZY.inner")
+M("C06", "isolated predicate against per-sample maximum", SA, "[0, X_valid_features.sum().values]", "[0, X_valid_features_per_sample.max().values]", "GUARD.isolated.predicate")
+M("C08", "clip outside sqrt", XU, "return np.sqrt(np.cos(np.deg2rad(data)).clip(0, 1))", "return np.sqrt(np.cos(np.deg2rad(data))).clip(0, 1)", "WIRE.stats.coslat")
+M("C16", "pattern map without conjugate transpose", WH, "            VS = self.T.conj().T\n            VS = VS.rename({\"mode\": dummy_dim})", "            VS = self.T.rename({\"mode\": dummy_dim})", "ADJOINT.maps.adjoint")
